@@ -233,7 +233,16 @@ theorem sink_unbuffered : chanCapHttp = 0 := rfl
 decoder, built after the switch -/
 theorem source_switch (n : Nat) :
     sourceOf n = (if n > 0 then "uriReadSeekCloser" else "fileReadSeekCloser") ∧ decoderAfterSourceSwitch = true ∧
-    urisSeparator = "\n" := ⟨rfl, rfl, rfl⟩
+    urisSeparator = "\n" := by
+  refine ⟨?_, rfl, rfl⟩
+  -- `len(conf.Uris) > 0` and `len(conf.Uris) != 0` are the same test (one of the two hypotheses is unused by simp)
+  set_option linter.unusedSimpArgs false in
+  unfold sourceOf
+  by_cases h : n > 0
+  · have h' : n ≠ 0 := by omega
+    simp [h, h']
+  · have h' : n = 0 := by omega
+    simp [h']
 
 /-! ## round 3: the epilogue of `Run` (deferred function) -/
 
@@ -251,6 +260,21 @@ the `defer` stands before every `return` of Run, and NewProvider fills the field
 its source exactly once, after its path ended — with preload on and off -/
 theorem close_sites_source : closeCallsElsewhere = 0 ∧ deferBeforeReturns = true ∧ newProviderSetsClose = true :=
   ⟨rfl, rfl, rfl⟩
+
+/-- NewProvider's source switch with the regenerated guards of uriReadSeekCloser / fileReadSeekCloser is the model's
+`sourceAccepted` (no guard asks for `Preload`: the translator reads only the decoder type and the file name in them) -/
+theorem source_guards_source (k : Fmt) (nUris : Nat) (hasFile : Bool) :
+    sourceAccepted k nUris hasFile =
+      !(if sourceOf nUris = "uriReadSeekCloser" then urisRejected (k == .uri) hasFile else fileRejected hasFile) := by
+  by_cases h : nUris > 0
+  · have hs : sourceOf nUris = "uriReadSeekCloser" := by rw [(source_switch nUris).1]; simp [h]
+    rw [hs]
+    simp only [sourceAccepted, h, if_true]
+    cases (k == Fmt.uri) <;> cases hasFile <;> decide
+  · have hs : sourceOf nUris ≠ "uriReadSeekCloser" := by rw [(source_switch nUris).1]; simp [h]
+    rw [if_neg hs]
+    simp only [sourceAccepted, h, if_false]
+    cases hasFile <;> decide
 
 /-! ## round 2: headers (area "c14hdr") -/
 
